@@ -124,9 +124,11 @@ def apply(world, op):
         _last_change(t).add_file(meta={'path': 'p', 'n': {'a': []}},
                                  diff=SAMPLE_DIFF, diff_type='text')
     elif name == 'add-file-big':
-        # equal (not identical) 70 KB diffs in every tree that gets one
+        # equal (not identical) large diffs in every tree that gets one
+        # (arg = number of hunks; default ~70 KB)
         big = ('\n'.join('@@ -%d +%d @@\n-o%d\n+n%d' % (k, k, k, k)
-                         for k in range(1, 3300)) + '\n').encode('ascii')
+                         for k in range(1, (arg or 3300))) + '\n').encode(
+                             'ascii')
         _last_change(t).add_file(meta={'path': 'big'}, diff=big)
     elif name == 'mut-meta':
         t.meta['x'] = 'y'
@@ -269,6 +271,8 @@ def plan(tier):
         for b in firsts:
             if a[1] == 0 and b[1] != 0:     # canonical: slot 0 first
                 units.append((a, b))
+    for hunks in (3300, 14000, 60000):      # ~70 KB, ~330 KB, ~1.5 MB
+        units.append(('scale', hunks))
     return {
         'units': units,
         'rule': 'explicit-state BFS over a pool of %d live trees plus one '
@@ -295,7 +299,38 @@ def plan(tier):
     }
 
 
+def run_scale_unit(unit):
+    """Two live trees (constructed and parsed) that hold equal large diffs:
+    every step checked like any other transition."""
+    acc = Acc()
+    g0 = module_globals_snapshot()
+    n = unit[1]
+    for first in (('new', 0, None), ('parse', 0, 0)):
+        hist = (first, ('new-attrs', 1, None), ('add-change', 0, None),
+                ('add-change', 1, None), ('add-file-big', 0, n),
+                ('add-file-big', 1, n), ('stats', 0, None),
+                ('stats', 1, None), ('mut-file-meta', 0, None),
+                ('stats', 0, None), ('to-bytes', 1, None),
+                ('write-shared', 0, None), ('write-shared', 1, None))
+        for k in range(len(hist)):
+            viols, key = check_step(hist[:k], hist[k], g0)
+            acc.evals += 1
+            acc.transitions += 1
+            acc.validated += 1
+            acc.nontrivial += 1
+            for k_, msg in viols:
+                acc.violation(k_ + ':scale', msg[:800],
+                              {'kind': 'hist',
+                               'hist': [list(o) for o in hist[:k + 1]]})
+            acc.outcome('ok' if not viols else 'violation')
+    acc.states = 2
+    acc.sample({'scale_hunks': n}, 1)
+    return acc
+
+
 def run_unit(unit, tier):
+    if unit[0] == 'scale':
+        return run_scale_unit(unit)
     acc = Acc()
     g0 = module_globals_snapshot()
     ops = ops_for(2 if tier == 'quick' else NSLOTS)
@@ -352,4 +387,6 @@ def replay(payload):
         viols, key = check_step(tuple(hist[:n]), hist[n], g0)
         if n == len(hist) - 1 or viols:
             out += viols
+    if any(o[0] == 'add-file-big' and o[2] for o in hist):
+        out = [(k + ':scale', m) for k, m in out]
     return [{'key': k, 'msg': m} for k, m in out]
